@@ -32,6 +32,7 @@ import (
 	"strconv"
 	"strings"
 	"sync"
+	"sync/atomic"
 	"time"
 
 	age "github.com/craterdog/go-collection-framework/v4/agent"
@@ -666,14 +667,23 @@ type regT5 struct{ A *int }
 type regT6 struct{ A uint8 }
 type regT7 struct{ A float64 }
 
-// regTouch calls every generic class accessor for the type parameter T and uses each class once
-func regTouch[T any]() []any {
+// regTouch calls every generic class accessor for the type parameter T (starting with accessor
+// number rot, so that different accessors get the simultaneous first call in different trials)
+// and uses each class once
+func regTouch[T any](rot int) []any {
 	var n = col.NotationLike(sharedNotation)
 	var z T
-	res := []any{
-		col.Array[T](n), col.List[T](n), col.Set[T](n), col.Stack[T](n), col.Queue[T](n),
-		col.Catalog[string, T](n), col.Map[string, T](n), col.Association[string, T](n),
-		age.Collator[T](), age.Sorter[T](), age.Iterator[T](),
+	acc := []func() any{
+		func() any { return col.Array[T](n) }, func() any { return col.List[T](n) }, func() any { return col.Set[T](n) },
+		func() any { return col.Stack[T](n) }, func() any { return col.Queue[T](n) },
+		func() any { return col.Catalog[string, T](n) }, func() any { return col.Map[string, T](n) },
+		func() any { return col.Association[string, T](n) },
+		func() any { return age.Collator[T]() }, func() any { return age.Sorter[T]() }, func() any { return age.Iterator[T]() },
+	}
+	res := make([]any, len(acc))
+	for j := range acc {
+		i := (rot + j) % len(acc)
+		res[i] = acc[i]()
 	}
 	l := col.List[T](n).MakeFromArray([]T{z, z})
 	s := col.Set[T](n).Make()
@@ -698,7 +708,7 @@ func regTouch[T any]() []any {
 	return res
 }
 
-var regTouchers = []func() []any{regTouch[regT0], regTouch[regT1], regTouch[regT2], regTouch[regT3],
+var regTouchers = []func(int) []any{regTouch[regT0], regTouch[regT1], regTouch[regT2], regTouch[regT3],
 	regTouch[regT4], regTouch[regT5], regTouch[regT6], regTouch[regT7]}
 
 // ---------- the child process ----------
@@ -719,29 +729,39 @@ func indepChild(specPath string) int {
 	noise := newRng(c.Seed)
 
 	if c.Mode == "registry" {
-		// every goroutine touches the accessors of its type parameters at start-up
+		// for each fresh type parameter in turn: all goroutines that have it call its accessors
+		// for the first time at the same moment (spin barrier)
 		got := make([][][]any, nt)
-		var wg sync.WaitGroup
-		start := make(chan struct{})
-		for g := 0; g < nt; g++ {
-			wg.Add(1)
-			go func(g int) {
-				defer wg.Done()
-				<-start
-				// the thread's Ety list is encoded in Seed's bits (8 types)
-				for t := 0; t < 8; t++ {
-					if c.Threads[g].Seed&(1<<uint(t)) != 0 {
-						got[g] = append(got[g], regTouchers[t]())
-					} else {
-						got[g] = append(got[g], nil)
-					}
-				}
-			}(g)
+		for g := range got {
+			got[g] = make([][]any, 8)
 		}
-		close(start)
-		wg.Wait()
+		rot0 := int(c.Seed % 11)
 		for t := 0; t < 8; t++ {
-			ref := regTouchers[t]()
+			var members []int
+			for g := 0; g < nt; g++ {
+				if c.Threads[g].Seed&(1<<uint(t)) != 0 {
+					members = append(members, g)
+				}
+			}
+			var ready int32
+			var wg sync.WaitGroup
+			for _, g := range members {
+				wg.Add(1)
+				go func(g int) {
+					defer wg.Done()
+					atomic.AddInt32(&ready, 1)
+					for spin := 0; atomic.LoadInt32(&ready) < int32(len(members)); spin++ {
+						if spin > 1000000 {
+							runtime.Gosched()
+						}
+					}
+					got[g][t] = regTouchers[t]((rot0 + t) % 11)
+				}(g)
+			}
+			wg.Wait()
+		}
+		for t := 0; t < 8; t++ {
+			ref := regTouchers[t](0)
 			for g := 0; g < nt; g++ {
 				if got[g][t] == nil {
 					continue
@@ -931,6 +951,9 @@ func encThread(th *indepThread, cold bool) string {
 }
 
 func descThread(th *indepThread) string {
+	if th.Ety >= 100 {
+		return fmt.Sprintf("first use of all 11 generic accessors (and one use of each class) for the fresh type parameters with mask %08b of regT0..regT7", th.Seed)
+	}
 	s := fmt.Sprintf("%s %s<%s>", th.Fam, th.Kind, etyNames[th.Ety%len(etyNames)])
 	switch {
 	case th.Via == "nota":
@@ -1119,6 +1142,7 @@ func genIndep(prop string, seed uint64, tier, outDir string, count int) error {
 	}
 	controls := []string{"samelist", "samecoll", "samefmt", "derivedset", "sharedread", "sharedread", "registry", "registry", "registry"}
 	ngo := []int{2, 2, 2, 3, 4, 5, 8, 12, 16}
+	npair := 0
 	for len(cases) < count {
 		id := len(cases)
 		c := indepCase{Id: id, Reps: reps, Seed: r.next(), Cold: r.chance(1, 2), Expect: true, Mode: "pair"}
@@ -1126,10 +1150,13 @@ func genIndep(prop string, seed uint64, tier, outDir string, count int) error {
 		switch {
 		case k == 9:
 			c.Mode = controls[(id/10)%len(controls)]
+		case k == 4 && (id/10)%2 == 0:
+			c.Mode = "registry"
 		}
 		switch c.Mode {
 		case "pair":
-			p := pairs[(id-id/10)%len(pairs)]
+			p := pairs[npair%len(pairs)]
+			npair++
 			n := ngo[r.intn(len(ngo))]
 			ety := r.intn(len(etyNames))
 			sameEty := r.chance(3, 4)
@@ -1247,7 +1274,11 @@ func genIndep(prop string, seed uint64, tier, outDir string, count int) error {
 			trace = append(trace, fmt.Sprintf("goroutine %d: %s", g, descThread(&c.Threads[g])))
 			fams = append(fams, c.Threads[g].Fam)
 			meta.OpHist[c.Threads[g].Fam]++
-			meta.TypeHist[etyNames[c.Threads[g].Ety%len(etyNames)]]++
+			if c.Threads[g].Ety >= 100 {
+				meta.TypeHist["fresh struct types (registry trials)"]++
+			} else {
+				meta.TypeHist[etyNames[c.Threads[g].Ety%len(etyNames)]]++
+			}
 		}
 		meta.LenHist[fmt.Sprintf("goroutines=%02d", len(c.Threads))]++
 		meta.OutHist["mode="+c.Mode]++
